@@ -55,6 +55,10 @@ CLAIMED["C20"] = ("mirsym over load_overrides (bin MIR, convert_enum! conversion
     "bounded symbolic model checking of the mapping kernels: every Config field after overrides = the flag's same-named variant if present else the configuration's; every editorconfig key sets exactly its documented field; nothing else changes",
     "trusts rustc's MIR printer, mirsym, z3; serde/toml decoding, deny_unknown_fields, clap's string->enum parsing and ec4rs are outside the encoding (carrier replay only)", "5/C15-C20")
 
+CLAIMED["C15"] = ("mirsym over find_config_file (recursion inlined) / lookup_config_file_in_directory / find_toml_file / load_configuration(_for_stdin) with the file system abstracted to a symbolic directory chain and a map-summarised cache, two successive lookups; z3 against the documented precedence; directory-tree replay",
+    "bounded symbolic model checking of the precedence kernels: for every existence pattern of stylua.toml/.stylua.toml on a chain of 4 directories, every cwd position or parent search: the nearest file up to the root (or XDG/HOME) is chosen, a cached second lookup (same directory or its parent) agrees; forced > found > editorconfig (unless disabled) > defaults",
+    "trusts rustc's MIR printer, mirsym + Path/HashMap summaries, z3; toml decoding, ec4rs discovery and the XDG/HOME probing order are outside", "5/C15-C20")
+
 NOT_YET = {}
 
 NA = {
